@@ -672,7 +672,7 @@ const T_INST: &str = "contested";
 const T_TY: &str = "_t._udp.local.";
 
 impl Claim {
-    fn records_for(&self, which: Which) -> Vec<wire::Record> {
+    pub fn records_for(&self, which: Which) -> Vec<wire::Record> {
         let inst = scen::wire_name(&format!("{T_INST}.{T_TY}"));
         let host = scen::wire_name(&self.host);
         let mut v = match which {
@@ -725,7 +725,7 @@ fn rdata_bytes(r: &RData) -> Vec<u8> {
 }
 
 /// The statement's order on record sets: class, then type, then RDATA, then number of records.
-fn compare_sets(x: &[wire::Record], y: &[wire::Record]) -> std::cmp::Ordering {
+pub fn compare_sets(x: &[wire::Record], y: &[wire::Record]) -> std::cmp::Ordering {
     for (a, b) in x.iter().zip(y.iter()) {
         let o = (a.class_only(), a.rtype, rdata_bytes(&a.rdata)).cmp(&(b.class_only(), b.rtype, rdata_bytes(&b.rdata)));
         if o != std::cmp::Ordering::Equal {
@@ -809,7 +809,7 @@ pub fn shown(seed: u64, mine: &Claim, theirs: &Claim, which: Which, at: u64, jit
     ShownRun { verdict, probes_after, t_shown, announced_at, trace, died }
 }
 
-fn random_claim(rng: &mut Rng, base: &Claim) -> Claim {
+pub fn random_claim(rng: &mut Rng, base: &Claim) -> Claim {
     let mut c = base.clone();
     match rng.below(8) {
         0 => c.port = *rng.pick(&[1u16, 79, 80, 81, 255, 256, 0x7fff, 0x8000, 0xffff]),
